@@ -22,7 +22,7 @@ import (
 	"verifh/wrx"
 )
 
-const wd = 8 * time.Second
+const wd = 20 * time.Second
 
 type arrivals struct {
 	mu sync.Mutex
